@@ -1,6 +1,7 @@
 package keeper
 
 import (
+	"sort"
 	"strconv"
 
 	"github.com/ExocoreNetwork/exocore/x/avs/types"
@@ -77,7 +78,19 @@ func (wrapper EpochsHooksWrapper) AfterEpochEnd(
 				// Handle the error gracefully, continue to the next
 				// continue
 			}
-			diff := types.Difference(taskInfo.OptInOperators, signedOperatorList)
+			// the non-signers are the operators opted in at task creation that did not sign; an
+			// operator that signed without having been opted in is not a non-signer
+			signed := make(map[string]struct{}, len(signedOperatorList))
+			for _, operator := range signedOperatorList {
+				signed[operator] = struct{}{}
+			}
+			var diff []string
+			for _, operator := range taskInfo.OptInOperators {
+				if _, ok := signed[operator]; !ok {
+					diff = append(diff, operator)
+				}
+			}
+			sort.Strings(diff)
 			taskInfo.SignedOperators = signedOperatorList
 			taskInfo.NoSignedOperators = diff
 			taskInfo.OperatorActivePower = &types.OperatorActivePowerList{OperatorPowerList: operatorPowers}
